@@ -296,6 +296,8 @@ func seqProfile0(prop, tier string) *SeqProfile {
 					Note: "Reader.tla: lazy load / unload of one closed segment's reader (getIndexMarked, getMessages, GC) under concurrent consumers and GC calls, one action per lock section / pause point: NoUseAfterClose, InuseExact, NoLeak, no deadlock, every call returns (liveness under weak fairness)"},
 				{Module: "Reader.tla", Cfg: "reader_no_inc.cfg", Workers: 4, Timeout: 5 * time.Minute, Expect: "NoUseAfterClose",
 					Note: "negative control: counting the user after releasing the read lock lets GC unmap a handle in use"},
+				{Module: "Reader.tla", Cfg: "reader_no_count.cfg", Workers: 4, Timeout: 5 * time.Minute, Expect: "InuseExact,NoUseAfterClose",
+					Note: "negative control: the re-check branch hands out the shared reader without counting the user (seeded change S83 at design level)"},
 				{Module: "Reader.tla", Cfg: "reader_no_recheck.cfg", Workers: 4, Timeout: 5 * time.Minute, Expect: "NoLeak",
 					Note: "negative control: without the second look under the write lock two loaders leak a mapping"}},
 			Extra:  runC08,
